@@ -62,7 +62,7 @@ def run(run):
         # there is ~ 1.75e-2 * distance in degrees, so 1e-12 rad is reached near 6e-11 deg)
         near = 10.0 ** rng.uniform(-15.0, -2.0)
         pts.append((rng.choice([rng.uniform(-540, 540), rng.uniform(-180, 180), -180.0, 180.0, 0.0]),
-                    rng.choice([rng.uniform(-90, 90), 90 - rng.uniform(0, 1e-6), -90 + rng.uniform(0, 1e-6), 90 - near, -90 + near, 90 - near, -90 + near])))
+                    rng.choice([rng.uniform(-90, 90), 90 - rng.uniform(0, 1e-6), -90 + rng.uniform(0, 1e-6), 90 - near, -90 + near, 90 - near, -90 + near, near, -near])))
     sreq = [f"from_lonlat {geo.hx(lo)} {geo.hx(la)}" for lo, la in pts]
     simpl, smodel = core.both(run, sreq, "from_lonlat")
     treq = []
@@ -80,7 +80,7 @@ def run(run):
         if not d <= 1e-12:
             run.violation(f"lon/lat -> sphere -> lon/lat moves the point by {d:.3e} rad", q, f"({lo!r},{la!r}) -> ({lo2!r},{la2!r})")
     run.rule = ("latitude grid: %d equally spaced points on [-pi/2, pi/2], endpoints, pi/2 - 10^-k for k = 1..15, random; forward, inverse of forward, forward of the negated value; "
-                "closed-form WGS84 authalic latitude (independent, pole-safe evaluation) for |lat| <= 89 deg; lon/lat pairs with lon in [-540, 540] incl. poles, within 1e-6 deg of them and at log-uniform distances 1e-15..1e-2 deg from them; "
+                "closed-form WGS84 authalic latitude (independent, pole-safe evaluation) for |lat| <= 89 deg; lon/lat pairs with lon in [-540, 540] incl. poles, within 1e-6 deg of them and at log-uniform distances 1e-15..1e-2 deg from them and from the equator; "
                 "non-trivial = distinct latitudes evaluated" % n)
     run.samples = [{"request": reqs[i], "impl": impl[i], "model": model[i]} for i in rng.sample(range(len(reqs)), 5)]
     run.extra["worst_roundtrip_rad"] = worst_rt
